@@ -152,6 +152,9 @@ package parser
 //@ func invalidValueError [C02]
 //@   ensures result0.Error.Err != nil && !result1
 
+// a field whose YAML value is a null written as text (`null`, `~`): unset for Prometheus (an empty `expr:` is also a null,
+// but its empty text is caught by the "value cannot be empty" errors)
+//@ spec func nullFree(n *yaml.Node) bool = n == nil || shortTag(n) != "!!null" || n.Value == ""
 //@ spec func validLN(s string) bool = pureCall("(github.com/prometheus/common/model.LabelName).IsValid", s)
 //@ spec func okLabel(kv *YamlKeyValue) bool = validLN(kv.Key.Value) && kv.Key.Value != "__name__" && pureCall("(github.com/prometheus/common/model.LabelValue).IsValid", kv.Value.Value)
 //@ func parseRule [C02]
@@ -168,11 +171,20 @@ package parser
 //@   ensures [C01] !isEmpty && rule.Error.Err == nil && rule.RecordingRule != nil && rule.RecordingRule.Labels != nil ==> (forall i int :: 0 <= i && i < len(rule.RecordingRule.Labels.Items) ==> okLabel(rule.RecordingRule.Labels.Items[i]))
 //@   ensures [C01] !isEmpty && rule.Error.Err == nil && rule.AlertingRule != nil && rule.AlertingRule.Labels != nil ==> (forall i int :: 0 <= i && i < len(rule.AlertingRule.Labels.Items) ==> okLabel(rule.AlertingRule.Labels.Items[i]))
 //@   ensures [C01] !isEmpty && rule.Error.Err == nil && rule.AlertingRule != nil && rule.AlertingRule.Annotations != nil ==> (forall i int :: 0 <= i && i < len(rule.AlertingRule.Annotations.Items) ==> validLN(rule.AlertingRule.Annotations.Items[i].Key.Value))
-//@   loop 7 invariant [C01] 0 <= iter7 && iter7 <= len(labelsPart.Items)
-//@   loop 7 invariant [C01] forall i int :: 0 <= i && i < iter7 ==> okLabel(labelsPart.Items[i])
-//@   loop 8 invariant [C01] 0 <= iter8 && iter8 <= len(annotationsPart.Items)
-//@   loop 8 invariant [C01] forall i int :: 0 <= i && i < iter8 ==> validLN(annotationsPart.Items[i].Key.Value)
-//@   loop 8 invariant [C01] labelsPart != nil ==> (forall i int :: 0 <= i && i < len(labelsPart.Items) ==> okLabel(labelsPart.Items[i]))
+//@   loop 8 invariant [C01] 0 <= iter8 && iter8 <= len(labelsPart.Items)
+//@   loop 8 invariant [C01] forall i int :: 0 <= i && i < iter8 ==> okLabel(labelsPart.Items[i])
+//@   loop 9 invariant [C01] 0 <= iter9 && iter9 <= len(annotationsPart.Items)
+//@   loop 9 invariant [C01] forall i int :: 0 <= i && i < iter9 ==> validLN(annotationsPart.Items[i].Key.Value)
+//@   loop 9 invariant [C01] labelsPart != nil ==> (forall i int :: 0 <= i && i < len(labelsPart.Items) ==> okLabel(labelsPart.Items[i]))
+//@   loop 5 invariant [C01] 0 <= iter5 && iter5 <= 3 && len(range5) == 3 && range5[0].part == recordNode && range5[1].part == alertNode && range5[2].part == exprNode
+//@   loop 5 invariant [C01] forall j int :: 0 <= j && j < iter5 ==> nullFree(range5[j].part)
+//@   loop 6 invariant [C01] nullFree(recordNode) && nullFree(alertNode) && nullFree(exprNode)
+//@   loop 7 invariant [C01] nullFree(recordNode) && nullFree(alertNode) && nullFree(exprNode)
+//@   loop 8 invariant [C01] nullFree(recordNode) && nullFree(alertNode) && nullFree(exprNode)
+//@   loop 9 invariant [C01] nullFree(recordNode) && nullFree(alertNode) && nullFree(exprNode)
+// a YAML null (`expr: null`, `alert: ~`) leaves the field unset for Prometheus ("field 'expr' must be set in rule",
+// "one of 'record' or 'alert' must be set"): such a rule is an error rule
+//@   at return assert [C01] rule.Error.Err == nil && (rule.RecordingRule != nil || rule.AlertingRule != nil) ==> nullFree(recordNode) && nullFree(alertNode) && nullFree(exprNode)
 // a recording rule carries no for / keep_firing_for / annotations
 //@   at return assert [C01] rule.Error.Err == nil && rule.RecordingRule != nil ==> forPart == nil && keepFiringForPart == nil && annotationsPart == nil
 // C06: every field node is built from the field's own YAML node, with the file's offsets and the column after the key
